@@ -736,6 +736,7 @@ def run(rep, tier):
                    c01_audit.capacity_vs_length_rule(rep, fn), c01_audit.tristate_status_rule(rep, fn)]
             nck_ = c01_audit.capacity_kept_rule(rep, fn)
             n_top = locals().get("n_top", 0) + c01_audit.top_digit_rule(rep, fn)
+            n_cb = locals().get("n_cb", 0) + c01_audit.copy_back_rule(rep, fn)
             if first:
                 n_ck += nck_
             if first:
@@ -788,6 +789,7 @@ def run(rep, tier):
     rep.floor("Euclid inverses (non-default variants)", c01_audit.no_inverse_exit_rule(rep, u0), 2)
     rep.floor("top-digit reads of functions that accept zero operands", locals().get("n_top", 0), 3)
     c01_audit.halving_odd_modulus_rule(rep, u0)
+    rep.floor("results computed in a temporary", locals().get("n_cb", 0), 1)
     rep.floor("subtract-until-smaller loops", c01_audit.zero_modulus_loop_rule(rep, u0), 1)
     c03.reduce_rule(rep, u0, "bn_mod_small")
     rep.floor("high-remainder stores on success paths (first configuration is a portable-divide one)", n_aud[4], 3)
